@@ -141,6 +141,16 @@ class Describer:
         if kind == 'fn':
             return ('const', 'fn', short(o[2]), canon(o[2]))
         named = o[4] if len(o) > 4 else ''
+        if named and 'promoted[' in named and depth < self.max_depth:
+            pb = self.facts.bodies.get(named)
+            if pb is not None and pb.kind == 'promoted':
+                sub = Describer(self.facts, pb, self.max_depth, self.stop_named)
+                outs = []
+                for r in pb.return_blocks():
+                    outs.append(sub.place([0, []], r, len(pb.blocks[r]['s']), depth + 1))
+                outs = _dedup(outs)
+                if len(outs) == 1:
+                    return outs[0]
         return ('const', kind, o[2], short(named) if named else '')
 
     def _base_local(self, local, bb, idx, depth):
